@@ -9,6 +9,7 @@ use reval::ruleset::Outcome;
 use rvv::core::*;
 use rvv::data::*;
 use rvv::gen::{self, Dec};
+use reval::expr::Index as Ix;
 use rvv::model::eval as me;
 use rvv::probe::{self, SetSpec};
 use rvv::props::setcommon::*;
@@ -79,10 +80,32 @@ struct Case {
     spec: SetSpec,
     n: usize,
     raw_threads: bool,
+    /// how often each thread / task evaluates its input in a row (contention)
+    repeat: usize,
+    /// seed of the per-evaluation inputs
+    input_seed: u64,
 }
 
-fn facts(id: usize) -> Value {
-    rvv::pool::map(&[("id", Value::Int(1000 + id as i128)), ("vi", Value::Int(5))])
+/// every evaluation has its own input: an id plus typed fields with evaluation-specific values (strings that parse as
+/// date-times, numbers, lists), so that concurrent evaluations convert / compute different things at the same time
+fn facts_for(c: &Case, id: usize) -> Value {
+    let mut bytes = vec![];
+    let mut x = c.input_seed ^ (id as u64 + 1).wrapping_mul(0x9E3779B97F4A7C15);
+    for _ in 0..40 {
+        x ^= x << 13;
+        x ^= x >> 7;
+        x ^= x << 17;
+        bytes.extend_from_slice(&x.to_le_bytes());
+    }
+    let mut d = Dec::new(&bytes);
+    let mut m = match gen::gen_facts(&mut d) {
+        Value::Map(m) => m,
+        _ => BTreeMap::new(),
+    };
+    m.insert("id".into(), Value::Int(1000 + id as i128));
+    m.insert("vi".into(), Value::Int(5 + id as i128));
+    m.insert("when".into(), Value::String(format!("20{:02}-0{}-1{}T0{}:00:00Z", 10 + id % 80, 1 + id % 9, id % 9, id % 9)));
+    Value::Map(m)
 }
 
 fn attributed(log: &[(String, String)], id: usize) -> Vec<(String, String)> {
@@ -96,26 +119,53 @@ fn gen_case(bytes: &[u8]) -> Case {
     let mut d = Dec::new(bytes);
     let fns = gen_fns(&mut d, false);
     let nrules = 1 + d.below(4);
-    let rules = (0..nrules)
+    let cfg = gen::ExprCfg { fn_names: vec!["fa".into(), "fb".into()], sym_names: vec!["nosym".into()], typed_weight: 7 };
+    let mut rules: Vec<(String, Expr)> = (0..nrules)
         .map(|i| {
             let depth = 1 + d.below(3) as u32;
             (format!("r{i}"), gen_call_expr(&mut d, depth, true))
         })
         .collect();
+    // rules over the built-ins: conversions of per-evaluation strings and numbers, lists, typed random trees
+    let nb = d.below(4);
+    for i in 0..nb {
+        let e = match d.below(4) {
+            0 => Expr::Vec(vec![
+                Expr::datetime(Expr::reff("when")),
+                Expr::year(Expr::datetime(Expr::reff("when"))),
+                Expr::func("fa", Expr::Vec(vec![Expr::reff("id"), Expr::datetime(Expr::reff("when"))])),
+                Expr::index(Expr::Vec(vec![Expr::reff("id"), Expr::reff("vi")]), Ix::Vec(1)),
+            ]),
+            1 => Expr::Vec(vec![Expr::reff("id"), Expr::func("fb", Expr::Vec(vec![Expr::reff("id"), Expr::reff("vs")])), Expr::reff("vi")]),
+            _ => {
+                let want = *d.pick(&gen::CONCRETE);
+                gen::gen_expr(&mut d, want, 4, &cfg)
+            }
+        };
+        rules.push((format!("b{i}"), e));
+    }
     let n = *d.pick(&[2usize, 4, 16]);
     Case {
         spec: SetSpec { rules, fns, symbols: BTreeMap::new(), suspend: 1 + d.below(3) as u32 },
         n,
         raw_threads: d.bool(),
+        repeat: *d.pick(&[1usize, 1, 3, 20]),
+        input_seed: d.u64(),
     }
 }
 
 fn case_json(c: &Case) -> serde_json::Value {
-    json!({"spec": spec_to_json(&c.spec), "n": c.n, "raw_threads": c.raw_threads})
+    json!({"spec": spec_to_json(&c.spec), "n": c.n, "raw_threads": c.raw_threads, "repeat": c.repeat, "input_seed": c.input_seed.to_string()})
 }
 
 fn case_from_json(j: &serde_json::Value) -> Option<Case> {
-    Some(Case { spec: spec_from_json(j.get("spec")?)?, n: j.get("n")?.as_u64()? as usize, raw_threads: j.get("raw_threads")?.as_bool()? })
+    Some(Case {
+        spec: spec_from_json(j.get("spec")?)?,
+        n: j.get("n")?.as_u64()? as usize,
+        raw_threads: j.get("raw_threads")?.as_bool()?,
+        repeat: j.get("repeat").and_then(|x| x.as_u64()).unwrap_or(1) as usize,
+        input_seed: j.get("input_seed").and_then(|x| x.as_str()).and_then(|s| s.parse().ok()).unwrap_or(0),
+    })
 }
 
 struct Overlap {
@@ -129,7 +179,7 @@ fn check(rt: &tokio::runtime::Runtime, c: &Case, overlap_seen: &AtomicUsize) -> 
     let mut baselines = vec![];
     for k in 0..c.n {
         base.log.lock().unwrap().clear();
-        let out = detach(block_on(base.ruleset.evaluate_value(&facts(k))).expect("evaluate_value"));
+        let out = detach(block_on(base.ruleset.evaluate_value(&facts_for(c, k))).expect("evaluate_value"));
         let log = attributed(&base.log.lock().unwrap(), k);
         baselines.push((out, log));
     }
@@ -137,7 +187,7 @@ fn check(rt: &tokio::runtime::Runtime, c: &Case, overlap_seen: &AtomicUsize) -> 
     let log = built.log.clone();
     let rs = Arc::new(built.ruleset);
     let ov = Arc::new(Overlap { inflight: AtomicUsize::new(0), max: AtomicUsize::new(0) });
-    let results: Vec<Result<Outs, String>> = if c.raw_threads {
+    let results: Vec<Result<Vec<Outs>, String>> = if c.raw_threads {
         std::thread::scope(|s| {
             let handles: Vec<_> = (0..c.n)
                 .map(|k| {
@@ -146,10 +196,13 @@ fn check(rt: &tokio::runtime::Runtime, c: &Case, overlap_seen: &AtomicUsize) -> 
                     s.spawn(move || {
                         let now = ov.inflight.fetch_add(1, Ordering::SeqCst) + 1;
                         ov.max.fetch_max(now, Ordering::SeqCst);
-                        let f = facts(k);
-                        let out = detach(block_on(rs.evaluate_value(&f)).expect("evaluate_value"));
+                        let f = facts_for(c, k);
+                        let mut outs = vec![];
+                        for _ in 0..c.repeat {
+                            outs.push(detach(block_on(rs.evaluate_value(&f)).expect("evaluate_value")));
+                        }
                         ov.inflight.fetch_sub(1, Ordering::SeqCst);
-                        out
+                        outs
                     })
                 })
                 .collect();
@@ -161,13 +214,17 @@ fn check(rt: &tokio::runtime::Runtime, c: &Case, overlap_seen: &AtomicUsize) -> 
                 .map(|k| {
                     let rs = rs.clone();
                     let ov = ov.clone();
+                    let c2 = c.clone();
                     tokio::spawn(async move {
                         let now = ov.inflight.fetch_add(1, Ordering::SeqCst) + 1;
                         ov.max.fetch_max(now, Ordering::SeqCst);
-                        let f = facts(k);
-                        let out = detach(rs.evaluate_value(&f).await.expect("evaluate_value"));
+                        let f = facts_for(&c2, k);
+                        let mut outs = vec![];
+                        for _ in 0..c2.repeat {
+                            outs.push(detach(rs.evaluate_value(&f).await.expect("evaluate_value")));
+                        }
                         ov.inflight.fetch_sub(1, Ordering::SeqCst);
-                        out
+                        outs
                     })
                 })
                 .collect();
@@ -183,23 +240,36 @@ fn check(rt: &tokio::runtime::Runtime, c: &Case, overlap_seen: &AtomicUsize) -> 
     }
     let log = log.lock().unwrap().clone();
     for (k, r) in results.iter().enumerate() {
-        let out = match r {
+        let outs = match r {
             Ok(o) => o,
             Err(e) => return Err(Issue::new("threads:panic", format!("concurrent evaluation {k} failed: {e}; {}", case_json(c)))),
         };
-        if !same_outs(out, &baselines[k].0) {
-            return Err(Issue::new(
-                "threads:outcomes-differ",
-                format!("concurrent evaluation {k} differs from the sequential one; {}", case_json(c)),
-            ));
+        for out in outs {
+            if !same_outs(out, &baselines[k].0) {
+                return Err(Issue::new(
+                    "threads:outcomes-differ",
+                    format!(
+                        "concurrent evaluation {k} gives {:?} but sequentially {:?}; {}",
+                        out.iter().map(|(n, v)| format!("{n}={}", v.as_ref().map(show_value).unwrap_or_else(|e| format!("Err({e})")))).collect::<Vec<_>>(),
+                        baselines[k].0.iter().map(|(n, v)| format!("{n}={}", v.as_ref().map(show_value).unwrap_or_else(|e| format!("Err({e})")))).collect::<Vec<_>>(),
+                        case_json(c)
+                    ),
+                ));
+            }
         }
-        if attributed(&log, k) != baselines[k].1 {
+        // invocation multiset: `repeat` times the baseline's
+        let mut want = vec![];
+        for _ in 0..c.repeat {
+            want.extend(baselines[k].1.clone());
+        }
+        want.sort();
+        if attributed(&log, k) != want {
             return Err(Issue::new(
                 "threads:invocations-differ",
                 format!(
                     "concurrent evaluation {k} invoked {:?}, sequentially {:?}; {}",
                     attributed(&log, k),
-                    baselines[k].1,
+                    want,
                     case_json(c)
                 ),
             ));
